@@ -540,6 +540,13 @@ def case_signature(rule: str, description: str, detail: Any, desc: dict, where: 
         return "C03:case:documented-method-presented-as-unspecified"
     if rule == "part-negative-valid" and case_label == "positive":      # the case is presented as valid, one of its valid parts as invalid
         return "C03:case:negative-part-label-in-positive-case:%s" % cls(t[0] for t in parts if t[1] == "T" and t[2] == "negative")
+    if rule in ("part-negative-valid", "case-negative-nothing-invalid") and where and where[0] in CONTAINER:
+        # the parameter the case varies: a string-typed one is the registered "everything is a valid string on the wire" class;
+        # a valid value presented as invalid for a parameter of another type is a different finding
+        varied = next((p_ for p_ in desc.get("params", []) if p_["loc"] == where[0] and uncps(p_["name"]) == where[1]), None)
+        if varied is not None and "string" not in varied["schema"].get("type", ["string"]) and not varied["schema"].get("nullable") and \
+                any(t[0] == where[0] and t[1] == "T" and t[2] == "negative" for t in parts):
+            return "C03:case:negative-label-valid-part:param:declared-" + "+".join(varied["schema"]["type"])
     if rule in ("part-negative-valid", "case-negative-nothing-invalid"):      # a negative label on content that is valid
         return "C03:case:negative-label-valid-part:%s" % cls(t[0] for t in parts if t[1] == "T" and t[2] == "negative")
     return "C03:case:%s:%s:%s:%s" % (rule, kind, cls(t[0] for t in parts if t[1] == "F" and t[2] == "positive"), primary(features(desc)))
